@@ -1051,17 +1051,56 @@ fn mk_ga() -> ga::Response {
     r.large_blob_key = Some(serde_bytes::ByteArray::new([4; 32]));
     r
 }
+fn mk_mc() -> mc::Response {
+    // a packed statement with every member the harness can set: the dispatcher must hand the handler's response back unchanged,
+    // whatever the request asked for (attestation preferences, enterprise attestation, options)
+    let mut r = mc::ResponseBuilder { fmt: ctap2::AttestationStatementFormat::Packed, auth_data: Bytes::from_slice(&[8; 40]).unwrap() }.build();
+    let mut x5c = HVec::new();
+    x5c.push(Bytes::from_slice(&[0x30, 0x03, 1, 2, 3]).unwrap()).ok();
+    r.att_stmt = Some(ctap2::AttestationStatement::Packed(ctap2::PackedAttestationStatement { alg: -7, sig: Bytes::from_slice(&[6; 9]).unwrap(), x5c: Some(x5c) }));
+    r.ep_att = Some(true);
+    r.large_blob_key = Some(serde_bytes::ByteArray::new([3; 32]));
+    r
+}
+fn mk_cp() -> client_pin::Response {
+    let mut r = client_pin::Response::default();
+    r.pin_token = Some(Bytes::from_slice(&[2; 32]).unwrap());
+    r.retries = Some(8);
+    r.power_cycle_state = Some(false);
+    r.uv_retries = Some(3);
+    r
+}
+fn mk_cm() -> cm::Response {
+    let mut r = cm::Response::default();
+    r.existing_resident_credentials_count = Some(1);
+    r.max_possible_remaining_residential_credentials_count = Some(24);
+    r.rp_id_hash = Some(serde_bytes::ByteArray::new([1; 32]));
+    r.total_rps = Some(2);
+    r.user = Some(wa::PublicKeyCredentialUserEntity::from(Bytes::from_slice(&[5, 6]).unwrap()));
+    r.credential_id = Some(wa::PublicKeyCredentialDescriptor { id: Bytes::from_slice(&[1, 2, 3]).unwrap(), key_type: HString::from("public-key") });
+    r.total_credentials = Some(3);
+    r.large_blob_key = Some(serde_bytes::ByteArray::new([4; 32]));
+    r
+}
+fn mk_gi() -> gi::Response {
+    let mut r = gi::Response::default();
+    r.aaguid = Bytes::from_slice(&[7; 16]).unwrap();
+    r.max_msg_size = Some(1200);
+    r.max_creds_in_list = Some(10);
+    r.max_cred_id_length = Some(255);
+    r
+}
 macro_rules! mock_impl {
     ($name:ident, {$($lb:tt)*}, {$($c1:tt)*}) => {
         struct $name(Beh);
         impl ctap2::Authenticator for $name {
             fn get_info(&mut self) -> gi::Response {
                 self.0.log.push("get_info".into());
-                gi::Response::default()
+                mk_gi()
             }
             fn make_credential(&mut self, request: &mc::Request) -> ctap2::Result<mc::Response> {
                 self.0.log.push(format!("make_credential {:?}", request));
-                match self.0.err2 { Some(e) => Err(e), None => Ok(mc::ResponseBuilder { fmt: ctap2::AttestationStatementFormat::None, auth_data: Bytes::new() }.build()) }
+                match self.0.err2 { Some(e) => Err(e), None => Ok(mk_mc()) }
             }
             fn get_assertion(&mut self, request: &ga::Request) -> ctap2::Result<ga::Response> {
                 self.0.log.push(format!("get_assertion {:?}", request));
@@ -1077,11 +1116,11 @@ macro_rules! mock_impl {
             }
             fn client_pin(&mut self, request: &client_pin::Request) -> ctap2::Result<client_pin::Response> {
                 self.0.log.push(format!("client_pin {:?}", request));
-                match self.0.err2 { Some(e) => Err(e), None => Ok(client_pin::Response::default()) }
+                match self.0.err2 { Some(e) => Err(e), None => Ok(mk_cp()) }
             }
             fn credential_management(&mut self, request: &cm::Request) -> ctap2::Result<cm::Response> {
                 self.0.log.push(format!("credential_management {:?}", request));
-                match self.0.err2 { Some(e) => Err(e), None => Ok(cm::Response::default()) }
+                match self.0.err2 { Some(e) => Err(e), None => Ok(mk_cm()) }
             }
             fn selection(&mut self) -> ctap2::Result<()> {
                 self.0.log.push("selection".into());
@@ -1240,10 +1279,16 @@ fn dispatch2(entry: &str, beh: &str, lb_override: &str, data: &[u8]) -> String {
     let names: Vec<&str> = log.iter().map(|l| l.split(' ').next().unwrap_or("")).collect();
     let same = log.iter().all(|l| *l == expected_param(&req));
     // the response is the handler's, unchanged (the assertion handlers return a response with every member set)
-    if let Ok(ctap2::Response::GetAssertion(x)) | Ok(ctap2::Response::GetNextAssertion(x)) = &res {
-        if *x != mk_ga() {
-            return "the dispatcher altered the response the handler returned".into();
-        }
+    let altered = match &res {
+        Ok(ctap2::Response::GetAssertion(x)) | Ok(ctap2::Response::GetNextAssertion(x)) => *x != mk_ga(),
+        Ok(ctap2::Response::MakeCredential(x)) => *x != mk_mc(),
+        Ok(ctap2::Response::ClientPin(x)) => *x != mk_cp(),
+        Ok(ctap2::Response::CredentialManagement(x)) => *x != mk_cm(),
+        Ok(ctap2::Response::GetInfo(x)) => *x != mk_gi(),
+        _ => false,
+    };
+    if altered {
+        return "the dispatcher altered the response the handler returned".into();
     }
     let r = match &res {
         Ok(r) => format!("ok:{}", resp2_name(r)),
